@@ -68,3 +68,114 @@ def bounded_list_raw(rng, vs, lo=-5, hi=5):
         out.append(({v: 1}, rng.randint(1, hi)))
         out.append(({v: -1}, rng.randint(1, -lo)))
     return out
+
+
+# ------------------------------------------------------------------ contracts and wirings
+def rrow(rng, vs, must=None, nmax=2, maxc=3, dyadic=0.0, posbias=0.75):
+    co, _ = rterm_raw(rng, vs, maxc=maxc, nmax=nmax, dyadic=dyadic, must=must)
+    c = rng.randint(0, 5) if rng.random() < posbias else rng.randint(-5, -1)
+    if dyadic and rng.random() < dyadic:
+        c += 0.5
+    return co, c
+
+
+def band_rows(rng, o, xs, dyadic=0.0):
+    """o tracks a linear function of the inputs xs within a band: two opposite rows."""
+    co = {o: rng.choice([1, 1, 2])}
+    for x in rng.sample(xs, rng.randint(1, min(2, len(xs)))) if xs else []:
+        co[x] = -rcoef(rng, 3, dyadic)
+    up, lo = rng.randint(0, 4), rng.randint(0, 4)
+    return [(dict(co), up), ({v: -a for v, a in co.items()}, lo)]
+
+
+def contract_raw(rng, inv, outv, na=(0, 2), ng=(1, 3), dyadic=0.0, nmax=3, band=0.0):
+    a = [rrow(rng, inv, nmax=2, dyadic=dyadic) for _ in range(rng.randint(*na))] if inv else []
+    if band and rng.random() < band:
+        g = []
+        for o in outv:
+            rows = band_rows(rng, o, inv, dyadic)
+            g += rows if rng.random() < 0.7 else [rng.choice(rows)]
+        if rng.random() < 0.3:
+            g.append(rrow(rng, inv + outv, nmax=nmax, dyadic=dyadic))
+        if inv and rng.random() < 0.5:
+            a = [({v: 1}, rng.randint(2, 5)) for v in inv if rng.random() < 0.8] + [({v: -1}, rng.randint(0, 3)) for v in inv if rng.random() < 0.6]
+        return {"inv": list(inv), "outv": list(outv), "a": a, "g": g}
+    g = []
+    allv = inv + outv
+    for _ in range(rng.randint(*ng)):
+        must = rng.choice(outv) if outv and rng.random() < 0.85 else None
+        g.append(rrow(rng, allv, must=must, nmax=nmax, dyadic=dyadic))
+    return {"inv": list(inv), "outv": list(outv), "a": a, "g": g}
+
+
+SCHEMAS = ["indep", "cascade", "cascade_rev", "shared", "casc_shared", "feedback", "feedback_free", "fanout", "casc_extra"]
+
+
+def pair_raw(rng, schema, dyadic=0.0):
+    """Two raw contracts wired according to `schema`; returns (d1, d2, swap) -- swap means call d2.op(d1)."""
+    swap = False
+    B = 0.7  # producers mostly guarantee bands, so that consumers' assumptions can be discharged
+    if schema == "indep":
+        d1 = contract_raw(rng, ["i"], ["o"], dyadic=dyadic)
+        d2 = contract_raw(rng, ["j"], ["p"], dyadic=dyadic)
+    elif schema in ("cascade", "cascade_rev"):
+        d1 = contract_raw(rng, ["i"], ["y"], dyadic=dyadic, band=B)
+        d2 = contract_raw(rng, ["y"], ["p"], na=(1, 2), dyadic=dyadic, band=B)
+        swap = schema == "cascade_rev"
+    elif schema == "shared":
+        d1 = contract_raw(rng, ["i", "s"], ["o"], dyadic=dyadic)
+        d2 = contract_raw(rng, ["s", "j"], ["p"], dyadic=dyadic)
+    elif schema == "casc_shared":
+        d1 = contract_raw(rng, ["i", "s"], ["y"], dyadic=dyadic, band=B)
+        d2 = contract_raw(rng, ["y", "s"], ["p"], na=(1, 2), dyadic=dyadic, band=B)
+        swap = rng.random() < 0.3
+    elif schema == "feedback":
+        d1 = contract_raw(rng, ["i", "p"], ["y"], dyadic=dyadic)
+        d2 = contract_raw(rng, ["y"], ["p"], na=(0, 1), dyadic=dyadic)
+    elif schema == "feedback_free":
+        # a cycle whose fed-back inputs are unconstrained by assumptions
+        d1 = contract_raw(rng, ["i", "p"], ["y"], na=(0, 0), dyadic=dyadic, band=B)
+        d1["a"] = [rrow(rng, ["i"], nmax=1)] if rng.random() < 0.6 else []
+        d2 = contract_raw(rng, ["y", "j"], ["p"], na=(0, 0), dyadic=dyadic, band=B)
+        d2["a"] = [rrow(rng, ["j"], nmax=1)] if rng.random() < 0.6 else []
+    elif schema == "fanout":
+        d1 = contract_raw(rng, ["i"], ["y", "z"], ng=(2, 3), dyadic=dyadic, band=B)
+        d2 = contract_raw(rng, ["y", "z"], ["p"], na=(1, 2), dyadic=dyadic, band=B)
+    else:  # casc_extra: the consumer has a private input and the producer a private output
+        d1 = contract_raw(rng, ["i"], ["y", "o"], ng=(2, 3), dyadic=dyadic, band=B)
+        d2 = contract_raw(rng, ["y", "j"], ["p"], na=(1, 2), dyadic=dyadic, band=B)
+        swap = rng.random() < 0.3
+    return d1, d2, swap
+
+
+def build_pair(rng, schema, dyadic=0.0, tries=30):
+    """Raw pair whose contracts construct (constructor simplification succeeds)."""
+    for _ in range(tries):
+        d1, d2, swap = pair_raw(rng, schema, dyadic)
+        try:
+            mk_contract(d1)
+            mk_contract(d2)
+        except ValueError:
+            continue
+        return d1, d2, swap
+    return None
+
+
+def keep_choices(rng, d1, d2):
+    outs = d1["outv"] + d2["outv"]
+    conn = [v for v in d1["outv"] if v in d2["inv"]] + [v for v in d2["outv"] if v in d1["inv"]]
+    opts = [[]]
+    if conn:
+        opts.append([rng.choice(conn)])
+        opts.append(list(conn))
+    opts.append([rng.choice(outs)])
+    return opts
+
+
+def rorder(rng):
+    r = rng.random()
+    if r < 0.35:
+        return None
+    if r < 0.75:
+        return [rng.choice([1, 2, 3, 4, 5])]
+    return rng.sample([1, 2, 3, 4, 5], rng.randint(2, 5))
